@@ -8,6 +8,7 @@ import (
 	"math/rand"
 	"net"
 	"os"
+	"strings"
 	"sync"
 	"sync/atomic"
 	"time"
@@ -241,12 +242,51 @@ var c19Maps = []mbMapSpec{
 
 func runC19(tier string, _ []string) int {
 	c := vlib.NewCtx("C19", tier, "exploration")
-	c.SetRule("real modbus.Client <-> real modbus.Server.Listen over (a) RTU framing on a packet-preserving in-memory duplex and (b) TCP framing on net.Pipe; 4 register maps with PRNG contents; every client method (ReadCoils, ReadDiscreteInputs, ReadHoldingRegs, ReadInputRegs, WriteSingleCoil, WriteSingleReg) x addresses (map edges, unmapped, 0xFFFF) x counts 1..largest fitting the client's 200-byte frame (success required, values and number of values compared with the server's registers) and beyond up to the protocol maximum on fresh pairs (error or correct values, never wrong ones) x unit ids; write then read back through the client and directly from the register file; a man-in-the-middle alters responses: 1-bit / 2-bit / <=16-bit-burst CRC damage (RTU), truncation at every length, wrong transaction id (TCP) => the call must fail; a withheld reply delivered late (TCP) must not answer the next request; 70000 consecutive TCP transactions (id wrap); conversions: all 2^16 register values, sampled 32-bit patterns incl. NaNs, both word orders, bit-exact in both directions. distinct = (transport, method, count class, outcome) Finally several masters on one register file: 3-6 client/server pairs (TCP and RTU) share one modbus.Regs; every connection writes coils only it owns (interleaved with the other connections' coils inside the same 16-bit registers) and its own register, reads each back after the acknowledgement and all are compared at rest.")
+	c.SetRule("real modbus.Client <-> real modbus.Server.Listen over (a) RTU framing on a packet-preserving in-memory duplex and (b) TCP framing on net.Pipe; 4 register maps with PRNG contents; every client method (ReadCoils, ReadDiscreteInputs, ReadHoldingRegs, ReadInputRegs, WriteSingleCoil, WriteSingleReg) x addresses (map edges, unmapped, 0xFFFF) x counts 1..largest fitting the client's 200-byte frame (success required, values and number of values compared with the server's registers) and beyond up to the protocol maximum on fresh pairs (error or correct values, never wrong ones) x unit ids; write then read back through the client and directly from the register file; a man-in-the-middle alters responses: 1-bit / 2-bit / <=16-bit-burst CRC damage (RTU), truncation at every length, wrong transaction id (TCP) => the call must fail; a withheld reply delivered late (TCP) must not answer the next request; 70000 consecutive TCP transactions (id wrap); conversions: all 2^16 register values, sampled 32-bit patterns incl. NaNs, both word orders, bit-exact in both directions. conversions of 2-6 element slices element by element; one TCP connection stays idle for 30 s (over a hundred rounds of read timeout + back-off in the server) and must then be served as before. distinct = (transport, method, count class, outcome) Finally several masters on one register file: 3-6 client/server pairs (TCP and RTU) share one modbus.Regs; every connection writes coils only it owns (interleaved with the other connections' coils inside the same 16-bit registers) and its own register, reads each back after the acknowledgement and all are compared at rest.")
 	c.Assume("the in-memory duplex delivers whole packets (as respreader does on a serial line); reads time out after 150 ms")
 	wd := c.NewWatchdog()
 	nPairs := c.N(24, 400)
 	callsPer := c.N(340, 1000)
 
+	// a connection that stays open and idle while the rest of the check runs (30 s = more than a hundred rounds
+	// of the server transport's 150 ms read timeouts): it must serve the next request like the first
+	idleRes := make(chan string, 1)
+	go func() {
+		r := vlib.NewR(c.Seed, "c19idle", 0)
+		l := newMbLink(r, "tcp", c19Maps[0], 1)
+		defer l.close()
+		var addr int = -1
+		for a := range l.model.regs {
+			addr = int(a)
+			break
+		}
+		if addr < 0 {
+			idleRes <- ""
+			return
+		}
+		if _, err := l.client.ReadHoldingRegs(1, uint16(addr), 1); err != nil {
+			idleRes <- "" // not the subject here
+			return
+		}
+		time.Sleep(30 * time.Second)
+		for try := 0; try < 3; try++ {
+			v := uint16(0xbe00 + try)
+			if err := l.client.WriteSingleReg(1, uint16(addr), v); err != nil {
+				idleRes <- fmt.Sprintf("after 30 s without traffic on an open TCP connection: WriteSingleReg: %v", err)
+				return
+			}
+			got, err := l.client.ReadHoldingRegs(1, uint16(addr), 1)
+			if err != nil || len(got) != 1 || got[0] != v {
+				idleRes <- fmt.Sprintf("after 30 s without traffic on an open TCP connection: wrote %d, read back %v %v", v, got, err)
+				return
+			}
+			if sv, _ := l.regs.ReadReg(addr); sv != v {
+				idleRes <- fmt.Sprintf("after 30 s without traffic: the write of %d was acknowledged but the server holds %d", v, sv)
+				return
+			}
+		}
+		idleRes <- ""
+	}()
 	vlib.Parallel(nPairs, 8, func(pi int) {
 		r := vlib.NewR(c.Seed, "c19", pi)
 		kind := []string{"rtu", "tcp"}[pi%2]
@@ -674,6 +714,60 @@ func runC19(tier string, _ []string) int {
 			}
 		}
 		c.Distinct("conv 32-bit both word orders")
+		// the same helpers on slices of 2-6 values: element k of the result belongs to element k of the input
+		sbad := ""
+		for q := 0; q < n/4 && sbad == ""; q++ {
+			bad := ""
+			m := 2 + r.Intn(5)
+			us := make([]uint32, m)
+			is := make([]int32, m)
+			fs := make([]float32, m)
+			for k := range us {
+				us[k] = uint32(r.Uint64())
+				if r.Chance(0.2) {
+					us[k] = []uint32{0, 1, 0xffff, 0x10000, 0xffffffff, 0x80000000, 0x7fc00001}[r.Intn(7)]
+				}
+				is[k], fs[k] = int32(us[k]), math.Float32frombits(us[k])
+			}
+			eqF := func(a, b []float32) bool {
+				if len(a) != len(b) {
+					return false
+				}
+				for k := range a {
+					if math.Float32bits(a[k]) != math.Float32bits(b[k]) {
+						return false
+					}
+				}
+				return true
+			}
+			ru, rus := modbus.Uint32ToRegs(us), modbus.Uint32ToRegsSwapRegs(us)
+			chkS := func(name string, ok bool) {
+				if !ok && bad == "" {
+					bad = name + " (slice of " + fmt.Sprint(m) + ")"
+				}
+			}
+			chkS("Uint32ToRegs length", len(ru) == 2*m && len(rus) == 2*m)
+			for k := 0; k < m && bad == "" && len(ru) == 2*m && len(rus) == 2*m; k++ {
+				chkS("Uint32ToRegs", ru[2*k] == uint16(us[k]>>16) && ru[2*k+1] == uint16(us[k]))
+				chkS("Uint32ToRegsSwapWords", rus[2*k] == uint16(us[k]) && rus[2*k+1] == uint16(us[k]>>16))
+			}
+			chkS("RegsToUint32", fmt.Sprint(modbus.RegsToUint32(ru)) == fmt.Sprint(us))
+			chkS("RegsToUint32SwapWords", fmt.Sprint(modbus.RegsToUint32SwapWords(rus)) == fmt.Sprint(us))
+			chkS("RegsToInt32", fmt.Sprint(modbus.RegsToInt32(modbus.Int32ToRegs(is))) == fmt.Sprint(is))
+			chkS("RegsToInt32SwapWords", fmt.Sprint(modbus.RegsToInt32SwapWords(modbus.Int32ToRegsSwapWords(is))) == fmt.Sprint(is))
+			chkS("Int32ToRegs", fmt.Sprint(modbus.Int32ToRegs(is)) == fmt.Sprint(ru))
+			chkS("Int32ToRegsSwapWords", fmt.Sprint(modbus.Int32ToRegsSwapWords(is)) == fmt.Sprint(rus))
+			chkS("RegsToFloat32", eqF(modbus.RegsToFloat32(modbus.Float32ToRegs(fs)), fs))
+			chkS("RegsToFloat32SwapWords", eqF(modbus.RegsToFloat32SwapWords(modbus.Float32ToRegsSwapWords(fs)), fs))
+			chkS("Float32ToRegs", fmt.Sprint(modbus.Float32ToRegs(fs)) == fmt.Sprint(ru))
+			chkS("Float32ToRegsSwapWords", fmt.Sprint(modbus.Float32ToRegsSwapWords(fs)) == fmt.Sprint(rus))
+			c.Eval(12)
+			if bad != "" {
+				sbad = bad
+				c.Violate("modbus-conv:"+strings.Fields(bad)[0], bad+" is not exact / not an inverse element by element", map[string]any{"values": fmt.Sprintf("%08x", us)})
+			}
+		}
+		c.Distinct("conv 32-bit slices")
 	}
 	// ---- several masters on one register file: every acknowledged write is what a read returns, also
 	// when other connections write neighbouring coils of the same 16-bit register at the same moment
@@ -770,6 +864,11 @@ func runC19(tier string, _ []string) int {
 		}
 		c.Count("shared_register_file_runs", 1)
 		c.Distinct(fmt.Sprintf("shared register file, %d connections", nCl))
+	}
+	if res := <-idleRes; res != "" {
+		c.Violate("modbus-e2e:idle-connection-not-served", res, map[string]any{"seed": c.Seed})
+	} else {
+		c.Count("idle_connection_served_after_30s", 1)
 	}
 	c.Require("calls:ok", 200)
 	c.Require("calls:error", 50)
